@@ -16,6 +16,8 @@ Correspondence (real CLI in-process through click's CliRunner, model = coq/Model
      single-bin chromosomes, one deviating interior bin; records in every part of every last bin; cload pairs and load -f bg2;
   J. option interplay: {symmetric, -N} x --input-copy-status {unique, duplex, default} x {coo, bg2} x chunk sizes on full-matrix, square
      and upper-triangle dumps, each cell judged by its documented meaning (copy status is ignored for square storage);
+  K. float counts (fractional values) re-imported through coo, bg2 and pairs with one chunk, several chunks <= --max-merge and more chunks
+     than --max-merge (two-pass merge): values and dtype exact;
   G. names pass: chromosome names that look like numbers / floats / NA tokens / booleans through every text round trip
      (known finding D37: a name equal to a pandas NA token is refused by load / cload pairs, exit 1).
 Property oracle (never calls the code under test for its expected value): a plain-python reading of the
@@ -2128,6 +2130,82 @@ def run_copy_status(ctx, runner, cli, cools, uris):
     ctx.extra["copy_status_cases"] = k
 
 
+# ============================================================ K. float counts through the one-pass and the two-pass merge
+def run_float_merge(ctx, runner, cli):
+    """fractional `count` values re-imported through coo, bg2 and pairs with 1 chunk, several chunks <= --max-merge and
+    more chunks than --max-merge (two-pass merge of the unordered creator): values and dtype must come back exactly"""
+    rng = ctx.rng
+    fdir = ctx.tmp / "floatmerge"
+    fdir.mkdir(exist_ok=True)
+    widths = [[10] * 6, [10] * 3 + [4]]
+    n = 10
+    cells = [(i, j) for i in range(n) for j in range(i, n)]
+    px = [(i, j, Fraction(rng.randint(1, 63), 8)) for (i, j) in rng.sample(cells, 40)]
+    cool = Cool(widths, px, None, True, "float-merge", fcount=True)
+    uri = str(fdir / "f.cool")
+    cool.create(uri)
+    plans = [("one-chunk", None, []), ("chunks<=max-merge", 15, []), ("two-pass", 3, ["--max-merge", "3"]), ("two-pass-4", 4, ["--max-merge", "2", "--mergebuf", "5"])]
+    for fmt, fextra, fields in (("coo", ["--count-as-float"], []), ("coo", [], ["count=3:dtype=float"]), ("bg2", [], ["count=7:dtype=float"]), ("bg2", ["--count-as-float"], [])):
+        o = default_opts(); o["ff"] = ".12g"; o["join"] = fmt == "bg2"
+        code, text = invoke(runner, cli, cli_args(o, uri))
+        for pname, chunk, mextra in plans:
+            case = {"kind": "load-dump", "cool": cool.spec(), "fmt": fmt, "one_based": False, "duplex": False, "chunk": chunk, "fields": fields,
+                    "symm": True, "text": read_tsv(text) if code == 0 else None, "vn": ["count"], "bins": "sizes", "plan": pname,
+                    "dump_opt": {kk: (list(v) if isinstance(v, tuple) else v) for kk, v in o.items()}, "extra": fextra + mextra, "floats": True}
+            ctx.case(case, nontrivial=True, kind="float-merge:load-" + fmt)
+            if case["text"] is None:
+                ctx.fail(case, {"why": "the dump to be re-loaded failed"}, None)
+                continue
+            code2, ires, storage = impl_load(runner, cli, cool, case, fdir, "F")
+            bad = oracle_load(cool, case, code2, ires, storage)
+            if bad:
+                ctx.fail(case, bad, None)
+    # pairs with a float count column: one or two records per pixel whose values add up to the pixel's value
+    rows, expect = [], {}
+    for a, b, v in cool.px:
+        parts = [v / 2, v / 2] if (a + b) % 3 == 0 else [v]
+        for part in parts:
+            ends = []
+            for i in (a, b):
+                c, s_, e = cool.bins[i]
+                ends += [cool.names[c], str(rng.randrange(s_, e))]
+            rows.append(ends + [repr(float(part))])
+        expect[(a, b)] = v
+    rng.shuffle(rows)
+    for pname, chunk, mextra in plans:
+        case = {"kind": "cload-float", "cool": cool.spec(), "text": rows, "chunk": chunk, "extra": mextra, "plan": pname}
+        ctx.case(case, nontrivial=True, kind="float-merge:cload")
+        bad = cload_float_check(runner, cli, cool, case, fdir)
+        if bad:
+            ctx.fail(case, bad, None)
+
+
+def cload_float_check(runner, cli, cool, case, fdir):
+    inp, out = fdir / "fp.pairs", fdir / "fp.cool"
+    inp.write_text("".join("\t".join(r) + "\n" for r in case["text"]))
+    if out.exists():
+        out.unlink()
+    args = ["cload", "pairs", "-c1", "1", "-p1", "2", "-c2", "3", "-p2", "4", "-0", "--field", "count=5:dtype=float"]
+    if case["chunk"] is not None:
+        args += ["--chunksize", str(case["chunk"])]
+    args += list(case["extra"]) + [bins_arg(cool, fdir, "fp", "sizes"), str(inp), str(out)]
+    code, _ = invoke(runner, cli, args, limit=60)
+    got = read_pixels(str(out), cols=("count",), floats=True) if code == 0 else None
+    exp = Counter()
+    for r in case["text"]:                         # independent reading of the file
+        a = py_bin_of(cool, cool.names.index(r[0]), int(r[1]))
+        b = py_bin_of(cool, cool.names.index(r[2]), int(r[3]))
+        exp[(min(a, b), max(a, b))] += Fraction(r[4])
+    expl = sorted((a, b, v) for (a, b), v in exp.items())
+    for pth in (inp, out):
+        if pth.exists():
+            pth.unlink()
+    if got is None or got[1] != expl:
+        return {"why": "cload pairs with a float count column: values / dtype not reproduced", "exit": str(code),
+                "expected": [[a, b, float(v)] for a, b, v in expl[:10]], "got": None if got is None else [[a, b, float(v)] for a, b, v in got[1][:10]]}
+    return None
+
+
 # ============================================================ run / replay
 def run(ctx):
     from click.testing import CliRunner
@@ -2151,7 +2229,8 @@ def run(ctx):
         run_names(ctx, runner, cli, thorough); tm["names"] = round(time.time() - t0, 1); t0 = time.time()
         run_zoom_specs(ctx, runner, cli, thorough); tm["zoom_specs"] = round(time.time() - t0, 1); t0 = time.time()
         run_bin_shapes(ctx, runner, cli, thorough); tm["bin_shapes"] = round(time.time() - t0, 1); t0 = time.time()
-        run_copy_status(ctx, runner, cli, cools, uris); tm["copy_status"] = round(time.time() - t0, 1)
+        run_copy_status(ctx, runner, cli, cools, uris); tm["copy_status"] = round(time.time() - t0, 1); t0 = time.time()
+        run_float_merge(ctx, runner, cli); tm["float_merge"] = round(time.time() - t0, 1)
         ctx.extra["section_wall_s"] = tm
     finally:
         os.chdir(cwd)
@@ -2198,6 +2277,8 @@ def replay(ctx, case):
             cool = Cool.from_spec(case["cool"])
             code, ires = impl_cload(runner, cli, cool, case, ctx.tmp, 0)
             return oracle_cload(cool, case, code, ires, ctx.tmp, 0) is None
+        if kind == "cload-float":
+            return cload_float_check(runner, cli, Cool.from_spec(case["cool"]), case, ctx.tmp) is None
         if kind == "zoomify-levels":
             code, lv = zoom_run(runner, cli, ctx.tmp, case, zoom_base(ctx.tmp, case, "replay"))
             return code == 0 and lv == zoom_levels_oracle(case["binsize"], sum(case["sizes"]), case["spec"])
